@@ -14,7 +14,7 @@
 (* TLC decides them - and termination within the bound - exhaustively for  *)
 (* a small analogue (MOD = 2^8 with MULT, INC reduced modulo 2^9).         *)
 (***************************************************************************)
-EXTENDS Integers
+EXTENDS Integers, Sequences
 
 CONSTANTS
     \* @type: Int;
@@ -38,6 +38,7 @@ VARIABLES
     \* @type: Int;
     pc        \* 0 = in the loop, 1 = returned
 
+\* @type: <<Int, Int, Int, Int, Int>>;
 vars == <<seed, top, res, steps, pc>>
 
 MAXR == MOD - 1                      \* EVUTIL_WEAKRAND_MAX = EV_INT32_MAX
@@ -93,6 +94,7 @@ Terminates  == <>(pc = 1)                            \* TLC, small analogue, und
 VecStep(s, o_ret, o_seed) == o_seed = Step(s) /\ o_ret = Step(s)
 \* evutil_weakrand_range_(seed s, top t) returned r leaving the seed at f after k generator steps,
 \* c = the k seeds produced by the real evutil_weakrand_ from s (k <= 8 is unrolled here)
+\* @type: (Int, Int) => Seq(Int);
 Chain(s, k) ==
     LET s1 == Step(s) s2 == Step(s1) s3 == Step(s2) s4 == Step(s3)
         s5 == Step(s4) s6 == Step(s5) s7 == Step(s6) s8 == Step(s7)
@@ -103,8 +105,16 @@ VecRange(s, t, r, f, k) ==
           LET c == Chain(s, k) IN
           /\ f = c[k] /\ r = Quot(c[k], t) /\ Accepted(c[k], t)
           /\ \A j \in 1..8 : (j < k) => ~Accepted(c[j], t)   \* every earlier value was (rightly) rejected
-\* dispatch start index: poll/select examine index (i+1) mod n first, i = the range result for seed s
-VecStart(s, n, first, f, k) == \E i \in {(first + n - 1) % n} : VecRange(s, n, i, f, k)
+\* poll/select dispatch with generator state s chooses i in [0, n) and examines the indices
+\* i+1, i+2, ... (mod n): the callbacks of the ready indices ord (a sequence, callback order) must be
+\* sorted by their cyclic distance from i+1, where i is the value the specification computes.
+\* @type: (Int, Int, Int, Int, Seq(Int)) => Bool;
+VecDisp(s, n, f, k, ord) ==
+    (1 <= k /\ k <= 8) =>
+        LET i == Quot(Chain(s, k)[k], n) IN
+        /\ VecRange(s, n, i, f, k)
+        /\ \A a \in DOMAIN ord : 0 <= ord[a] /\ ord[a] < n
+        /\ \A a, b \in DOMAIN ord : (a < b) => ((ord[a] + n - i - 1) % n) < ((ord[b] + n - i - 1) % n)
 
 InitFree ==
     /\ seed \in Int /\ top \in Int
